@@ -30,7 +30,9 @@ Definition MULT_CAP : nat := 3.   (* the literal in min(3, old_val + 1) *)
 Record wplan := { w_lat : Z; w_fail : bool; w_echo : option Z; w_rply : option Z }.
 Definition wplan0 : wplan := {| w_lat := 0; w_fail := false; w_echo := None; w_rply := None |}.
 
-Inductive ext := Call (c : cid) | Rx (p : pkt) | ConnMade | ConnLost.
+(* Stall d: a callback that takes d microseconds of wall time (a slow handler, a blocking write, a GC pause): the clock moves on WITHIN the
+   iteration, so timers that fall due meanwhile run in the next iteration together with what this one has made ready *)
+Inductive ext := Call (c : cid) | Rx (p : pkt) | ConnMade | ConnLost | Stall (d : Z).
 
 Inductive cb :=
 | CbEffect (timed_out : bool)
@@ -451,6 +453,7 @@ Definition run_cb (w : world) (c : cb) : R :=
   | CbExt (Rx p) => pkt_rcvd w p
   | CbExt ConnMade => conn_made w
   | CbExt ConnLost => conn_lost w
+  | CbExt (Stall d) => Ok (upd_loop w (now w + Z.max d 0) (ready w) (batch w) (timers w) (seq w))
   end.
 
 (* ---------- the loop: BaseEventLoop._run_once ---------- *)
